@@ -549,6 +549,7 @@ impl C11 {
         cfg.capacity = capacity;
         cfg.strategy = gen_strategy(&mut rng);
         cfg.short_read_pm = if rng.below(4) == 0 { *rng.pick(&[50u16, 300]) } else { 0 };
+        cfg.workers = *rng.pick(&[None, None, None, Some(1usize), Some(2)]);
         let bytes = model_payload(&stages).max(64);
         cfg.budget = if forever { 30_000 } else { 2_000 + bytes * (nstages as u64) * 8 };
         let lastpipe = rng.below(5) == 0;
@@ -596,11 +597,15 @@ pub fn judge(case: &Case) -> Verdict {
 
     // 1. liveness
     match &r.abort {
-        Some(Abort::Deadlock { detail, self_owned, main_done }) => {
+        Some(Abort::Deadlock { detail, self_owned, main_done, worker_starved }) => {
             if *main_done {
                 v.notes.push("orphan tasks blocked after the shell finished".into());
             } else {
-                let (class, shape) = if *self_owned && inline_nonfinal {
+                let (class, shape) = if *worker_starved {
+                    // tasks made with tokio::spawn block their runtime worker in synchronous pipe
+                    // I/O; with few workers (few CPUs) the task that would unblock them never runs
+                    ("C11/deadlock/worker-starvation", None)
+                } else if *self_owned && inline_nonfinal {
                     ("C11/deadlock/self-owned-reader", Some("inline-nonfinal-stage"))
                 } else {
                     ("C11/deadlock/other", None)
@@ -741,6 +746,11 @@ impl Check for C11 {
         if c.cfg.short_read_pm != 0 {
             let mut d = c.clone();
             d.cfg.short_read_pm = 0;
+            out.push(d);
+        }
+        if c.cfg.workers.is_some() {
+            let mut d = c.clone();
+            d.cfg.workers = None;
             out.push(d);
         }
         // shrink payload
